@@ -85,6 +85,11 @@ def timestamp_to_sf_struct(ts: pa.Array | pa.ChunkedArray) -> pa.Array:
     # subsecond() cannot represent most microsecond values exactly, eg: 65us * 1e9 is not integral
     fraction = pc.multiply(pc.subtract(ts.cast(pa.int64()), tsa_without_us.cast(pa.int64())), 1000).cast(pa.int32())  # type: ignore
 
+    # a NULL timestamp is a NULL struct (validity on the struct itself, its children are not nullable)
+    mask = ts.is_null()
+    epoch = pc.fill_null(epoch, 0)
+    fraction = pc.fill_null(fraction, 0)
+
     if ts.type.tz:
         assert ts.type.tz == "UTC", f"Timezone {ts.type.tz} not yet supported"
         timezone = pa.array([1440] * len(ts), type=pa.int32())
@@ -96,6 +101,7 @@ def timestamp_to_sf_struct(ts: pa.Array | pa.ChunkedArray) -> pa.Array:
                 pa.field("fraction", nullable=False, type=pa.int32()),
                 pa.field("timezone", nullable=False, type=pa.int32()),
             ],
+            mask=mask,
         )
     else:
         return pa.StructArray.from_arrays(
@@ -104,4 +110,5 @@ def timestamp_to_sf_struct(ts: pa.Array | pa.ChunkedArray) -> pa.Array:
                 pa.field("epoch", nullable=False, type=pa.int64()),
                 pa.field("fraction", nullable=False, type=pa.int32()),
             ],
+            mask=mask,
         )
